@@ -64,7 +64,12 @@ def run(fb, rep, tier):
         raise AnalysisBroken('_evaluateSolutionReal: switch(simplificationStatus) not found')
     cases = {c.v: c for c in sw[0].walk() if c.k == 'CaseStmt'}
     arm = case_arm_nodes(ev, cases[enum['INFEASIBLE']])
-    for res, st in (('INFEASIBLE', 'INFEASIBLE'), ('UNBOUNDED', 'UNBOUNDED'), ('DUAL_INFEASIBLE', 'INForUNBD')):
+    # the simplifier's UNBOUNDED only says that an improving direction exists; nothing is known about feasibility, so without a solve of
+    # the original LP it may only become INForUNBD (finding F60: an infeasible LP was reported unbounded)
+    unverified = [x for x in arm if x.k == 'BinaryOperator' and x.o == '=' and render(x.kids[0]) == '_status' and render(x.kids[1]) == 'UNBOUNDED']
+    rep.check(not unverified, 'R02.3', 'simplifier|no-unverified-UNBOUNDED', '%s:%d' % (ev.file, unverified[0].l) if unverified else ev.where(), 'the simplifier arm never assigns the definite status UNBOUNDED',
+              'the simplifier arm assigns _status = UNBOUNDED without a solve: the simplifier finds improving directions without knowing whether the LP is feasible, so an infeasible LP can be reported as unbounded')
+    for res, st in (('INFEASIBLE', 'INFEASIBLE'), ('UNBOUNDED', 'INForUNBD'), ('DUAL_INFEASIBLE', 'INForUNBD')):
         rep.check(enum[res] in cases, 'R02.3', 'simplifier|%s|handled' % res, ev.where(), 'case %s' % res, 'simplifier verdict %s has no case' % res)
         asg = [x for x in arm if x.k == 'BinaryOperator' and x.o == '=' and render(x.kids[0]) == '_status' and render(x.kids[1]) == st]
         rep.check(bool(asg), 'R02.3', 'simplifier|%s|maps-to|%s' % (res, st), ev.where(), '%s -> %s' % (res, st), 'no arm assigns %s for the verdict %s' % (st, res))
